@@ -15,15 +15,15 @@ CHECKS = {
             "into the real pool + TLC relation evaluation over recorded real executions",
             "The HashPool TLA+ model is checked exhaustively (every list up to the bound, 1-3 CPUs, every interleaving) for schedule "
             "independence; every completion order TLC finds reachable is forced in the real worker pool through the worker.send gate "
-            "under taskset; every (file-system assignment, list) of a small path universe is hashed for real in every permutation and under "
-            "several CPU/GOMAXPROCS settings, and TLC evaluates determinism / same-collection-same-digest / different-collection-different-"
+            "under taskset; every (file-system assignment, list) of a small path universe is hashed for real in every permutation, with the paths spelled "
+            "absolutely / relatively / with dot elements, with entries that are not regular files, and under several CPU/GOMAXPROCS settings, and TLC evaluates determinism / same-collection-same-digest / different-collection-different-"
             "digest over all records.",
             TB + "SHA-256 collision resistance; runtime.NumCPU follows the affinity mask.", "5 C04"),
     "C18": ("HashPool", "TLC model check of the pool incl. liveness + supervised real executions under the race detector judged by a TLC relation",
             "HashPool is model checked for crash freedom, error-iff-unreadable, no send on a closed channel, close only after all workers left, "
             "no leak, no deadlock, and termination under weak fairness; the real pool is run in watched child processes built with the race "
             "detector over list sizes around the worker-count boundary up to 10^4 and with missing / dangling / vanishing entries at every "
-            "position of short lists, with files churned concurrently (vanishing between open, stat and read), repeated, under 7 CPU settings, "
+            "position of short lists, named pipes, devices and links to directories as entries, with files churned concurrently (vanishing between open, stat and read), repeated, under 7 CPU settings, "
             "with goroutine accounting; TLC evaluates Clean_C18 on every record, and validates the recorded hook traces of the real pool against "
             "the model (HashPoolTrace: one event sequence per goroutine, TLC searches an allowed interleaving).",
             TB + "the Go race detector and runtime.NumGoroutine as observation sources; a watchdog time-out is read as a hang.", "5 C18"),
@@ -40,7 +40,8 @@ for _pid, _txt in (
     ("C14", "--force runs the whole closure, reports no skip, and leaves a cache that never justifies a wrong skip later"),
     ("C10", "after a kill at any hook point / inside any command / a torn cache file, never a wrong skip, only normal behaviour or an explicit cache error")):
     CHECKS[_pid] = ("SpokRun", RUNTECH,
-                    "For each of several small programs (1-3 tasks mixing literal, glob, shared and task dependencies) the real reachable state "
+                    "For each of several small programs (1-3 tasks mixing literal, glob, shared and task dependencies, one with a generator task that "
+                    "writes a file its consumer's glob matches) the real reachable state "
                     "space of the project directory is explored to a fixpoint, so histories of any length over the action alphabet are covered; "
                     "TLC checks the recorded graph in product with the ghost history and evaluates: " + _txt + ". The wal protocol model is "
                     "checked exhaustively against the same clauses (and the pinned variant is refuted), and the code is shown to follow the model on "
@@ -61,7 +62,8 @@ CHECKS["C05"] = ("Glob", "declarative glob semantics in TLA+ (model-checked fram
                  "expansion of every tree of a path pool x every pattern of a pattern pool",
                  "Glob.tla defines what a pattern denotes (segment wildcards, **, alternation, the leading-dot rule); TLC checks the semantics' own "
                  "frame properties over every tree x pattern of a sub-pool. Every subset of a 10 (quick) / 12 (thorough) path pool is built on disk and "
-                 "every one of 29 patterns (wildcards, **, alternation also in directory segments, hidden branches) expanded twice through SpokFile.Run; TLC compares each real expansion with Glob!Expand and the two "
+                 "every one of 45 patterns (wildcards, **, ?, classes, alternation also in directory segments, hidden branches, `./` and `//` spellings), "
+                 "and sampled trees with symbolic links to directories, expanded twice through SpokFile.Run; TLC compares each real expansion with Glob!Expand and the two "
                  "expansions with each other.", TB + "the transcription of doublestar's matching rules in Glob.tla (validated on the pool).", "5 C05")
 
 CHECKS["C17"] = ("Find", "TLC model check of the upward walk as a state machine over every configuration and path spelling incl. termination; TLAPS proof "
@@ -80,7 +82,8 @@ SYNTECH = ("input spaces generated from TLA+ models (SpokSyntax generative gramm
            "LexSM/ParseSM state machines) plus bounded-exhaustive class-alphabet strings, repo spokfiles and all truncations, loose layouts; real "
            "lexer/parser/printer run on every input; TLC evaluates the SyntaxJudge relation")
 for _pid, _txt in (
-    ("C06", "AstEq_C06: the parse tree equals the structure the text was written from, for every structure x layout"),
+    ("C06", "AstEq_C06: the parse tree equals the structure the text was written from, for every structure x layout (incl. lists spread over "
+            "lines and any spacing inside the braces of one-line bodies)"),
     ("C16", "Tiles_C16: token values are the input slices at their offsets, non-overlapping, only white space between, exact line numbers, finite, EOF at the end"),
     ("C08", "Total_C08: no panic / hang / crash, a second parse gives the identical result, every error cites a line within the input and quotes it "
             "(also after lines longer than 64 KiB)"),
@@ -105,7 +108,8 @@ for _pid, _txt in (
     ("C09", "Conforms_C09: an executed failing command (exit status, failing utility, missing program, child killed by a signal, subshell) makes the invocation exit non-zero and name a failing task under plain/--quiet/--json/--force, and the failed "
             "task executes again in a later run; the history clause Inv_C09b is also checked on the exhaustively explored real state graph of the run family"),
     ("C12", "Conforms_C12: without a clean task exactly the designated outputs (literal, named, glob) and the cache directory disappear and nothing else changes; the "
-            "spokfile, its directory and every ancestor survive whatever the outputs evaluate to; with a clean task only that task runs"),
+            "spokfile, its directory and every ancestor survive whatever the outputs evaluate to (outputs spelled relatively, absolutely, with "
+            "./ .. and trailing slashes, as links, nested in each other); with a clean task only that task runs"),
     ("C13", "Conforms_C13: every command's interpolated text equals the declarative substitution and `echo \"$NAME\"`, `printenv NAME` and `sh -c` (a started program's environment) print the spokfile value whatever the ambient "
             "environment and .env contain; a failing exec is an error and nothing runs"),
     ("C19", "Conforms_C19: every changed path is allowed by MayWrite(action, state) -- the cache directory, the spokfile under --fmt when it parses and loads, a new "
@@ -113,7 +117,8 @@ for _pid, _txt in (
             "the effective action being selected by the dispatch precedence of the abstract machine"),
     ("C20", "Conforms_C20: the --json document lists exactly the run's tasks in execution order with skipped flags (only a task with a file dependency, and never in a first or forced run) and per-command text/stdout/stderr/status "
             "(outputs with and without final newline, stderr only, several lines, none), --quiet "
-            "prints nothing, --show lists every task once sorted with its docstring, --vars every variable with its value, no arguments runs default or lists")):
+            "prints nothing, --show lists every task once sorted with its docstring, --vars every variable with its value (also with --json / --force added), "
+            "no arguments runs default or lists")):
     CHECKS[_pid] = ("SpokCLI", CLITECH, "SpokCLI.tla's abstract machine is model-checked (FmtOnlyWhenValid, CacheOnlyByRuns, ReadOnlyActions); scenarios are built as real "
                     "project trees and the built binary is run on each as an unprivileged user. TLC evaluates " + _txt + ".", CLITB, "5 " + _pid)
 
